@@ -265,6 +265,8 @@ static void join_unit(int id, int by)
     join_unit_ex(id, by, free_only);
 }
 
+static void gate_lock(void);
+static void gate_unlock(void);
 static void unit_fn(void *arg)
 {
     unit *u = (unit *)arg;
@@ -382,7 +384,7 @@ static void unit_fn(void *arg)
                 if ((how == 1 || how == 3) && (!u->named || u->ext_join))
                     how = (how == 3 && last) ? 4 : 0; /* (units freed by the external joiner never wait for the resumer) */
                 if ((how == 2 || how == 4) && !last)
-                    how = (how == 2) ? 0 : (u->named ? 3 : 0);
+                    how = (how == 2) ? 0 : ((u->named && !u->ext_join) ? 3 : 0);
                 ABT_thread tgt = ABT_THREAD_NULL;
                 int tid_ = -1;
                 if (how >= 3) {
@@ -591,6 +593,18 @@ static void unit_fn(void *arg)
                 break;
             }
         }
+    }
+    if (nch > 0 && u->parent < 0 && u->kind == AK_ULT && u->life == 0 && !u->ext_join && sc_rnd(5) == 0) {
+        /* a cancellation request is pending on this unit when it blocks in the join of a child: it must not disturb the
+         * hand-shake with the child (the request takes effect at this unit's next yield, or never if it just returns) */
+        gate_lock();
+        if (!u->cancel_me) {
+            u->cancel_me = 1;
+            vs_log("apiCall cancel U%d", u->id);
+            ABT_OK(ABT_thread_cancel(self));
+            u->cancel_done = 1;
+        }
+        gate_unlock();
     }
     for (int k = 0; k < nch; k++)
         join_unit(children[k], u->id);
